@@ -1,6 +1,7 @@
 package main
 
 import (
+	"sync"
 	"fmt"
 	"go/constant"
 	"go/token"
@@ -172,6 +173,10 @@ func (ex *Exec) decideFree(c *Term) bool {
 	return true
 }
 
+// forkStat (VSYM_FORKSTAT=1): how many two-way forks each function of the code under test caused — a profiling aid
+var forkStat map[string]int
+var forkMu sync.Mutex
+
 func (ex *Exec) decideM(c *Term, m uint64) bool {
 	k := len(ex.decisions)
 	if k < len(ex.prefix) {
@@ -194,6 +199,15 @@ func (ex *Exec) decideM(c *Term, m uint64) bool {
 		copy(alt, ex.decisions)
 		alt[k] = Dec{false, m}
 		ex.pending = append(ex.pending, alt)
+		if forkStat != nil {
+			where := "?"
+			if th := ex.sch.cur; th != nil && len(th.stack) > 0 {
+				where = th.stack[len(th.stack)-1].String()
+			}
+			forkMu.Lock()
+			forkStat[where]++
+			forkMu.Unlock()
+		}
 	}
 	b := ft
 	ex.decisions = append(ex.decisions, Dec{b, m})
@@ -1273,7 +1287,7 @@ func (ex *Exec) prepareCall(fr *frame, c *ssa.CallCommon) (Value, []Value) {
 					return Tuple{a[0].(Slice).len, Iface{}}
 				case "Read":
 					_ = ws
-					ex.wait(func() bool { return cs == nil || cs.exited || len(cs.out) > 0 }, "helper silent")
+					ex.wait(func() bool { return cs == nil || cs.exited || cs.outClosed || len(cs.out) > 0 }, "helper silent")
 					if cs != nil && len(cs.out) > 0 {
 						b := cs.out[0]
 						cs.out = cs.out[1:]
